@@ -108,7 +108,7 @@ def _get_stale_nodes(
                 process(node)
             except Exception as exception:
                 # Drop internal frames
-                exception.__traceback__ = (
+                exception.with_traceback(
                     exception.__traceback__.tb_next.tb_next.tb_next
                 )
                 progress_observer.increment_failed(
